@@ -36,6 +36,8 @@ class Controller(object):
         self.trace = []                  # (call index, task index) in execution order
         self.boundary = boundary
         self.pools_created = 0
+        self.task_spans = []             # (call index, task index, first event, end event) in the audit event list
+        self.call_starts = {}            # call index -> audit mark when the call was issued
 
     def schedule_for(self, kind, n, flavor):
         ci = len(self.calls)
@@ -77,6 +79,16 @@ class _CallState(object):
         t = self.perm[self.pos]
         self.pos += 1
         self.ctl.trace.append((self.ci, t))
+        from . import audit as _audit
+        m0 = _audit.mark()
+        try:
+            self._run_task(t)
+        finally:
+            if m0 is not None:
+                self.ctl.task_spans.append((self.ci, t, m0, _audit.mark()))
+        return t
+
+    def _run_task(self, t):
         try:
             args = self.tasks[t]
             if self.ctl.boundary:
@@ -173,6 +185,8 @@ class FakePool(object):
                 pickle.dumps(func)
         tasks = list(tasks)
         ci, perm, mode = self.ctl.schedule_for(kind, len(tasks), self.flavor)
+        from . import audit as _audit
+        self.ctl.call_starts[ci] = _audit.mark()
         st = _CallState(self.ctl, ci, func, tasks, perm, self.flavor)
         return st, mode
 
